@@ -248,3 +248,42 @@ func VH_C18_RootFound(k, j int) {
 	vReach("probed with one existing file")
 	vAssert(r == pathJoin(parts[:k-j]...), "the remote root is what precedes the path that exists under the local root")
 }
+
+// VH_C03_FindRoots: root detection never panics, whatever single file exists
+// under the local GOROOT / GOPATH trees and however short the remote path is.
+// The remote path has k one-byte elements; the file that exists locally is
+// <local root>/<tree>/<last j elements>.
+//
+//verif:prop C03
+//verif:param k 2..4
+//verif:param j 1..3
+//verif:param tree 0..2
+func VH_C03_FindRoots(k, j, tree int) {
+	if j >= k {
+		return
+	}
+	parts := make([]string, k)
+	for i := range parts {
+		b := vBytes("part"+string(rune('0'+i)), 1)
+		vAssume(vAnd(b[0] >= 'a', b[0] <= 'z'))
+		parts[i] = string(b)
+	}
+	remote := "/" + pathJoin(parts...)
+	root := vTempRoot()
+	s := &Snapshot{LocalGOROOT: root + "/goroot", LocalGOPATHs: []string{root + "/gopath"}}
+	switch tree {
+	case 0:
+		vSetFile(pathJoin(s.LocalGOROOT, "src", pathJoin(parts[k-j:]...)))
+	case 1:
+		vSetFile(pathJoin(s.LocalGOPATHs[0], "src", pathJoin(parts[k-j:]...)))
+	default:
+		vSetFile(pathJoin(s.LocalGOPATHs[0], "pkg/mod", pathJoin(parts[k-j:]...)))
+	}
+	g := &Goroutine{ID: 1, First: true}
+	g.Stack.Calls = []Call{{RemoteSrcPath: remote}}
+	s.Goroutines = []*Goroutine{g}
+	missing := s.findRoots()
+	vReach("roots searched")
+	vAssert(missing >= 0, "findRoots returns a count")
+	_ = s.guessPaths()
+}
